@@ -53,6 +53,8 @@ pub struct Case {
     pub prefixed: bool,
     /// further serde arguments in separate attributes next to rename / rename_all
     pub extra_attrs: bool,
+    /// the struct variant that owns the fields carries its own serde(rename) (independent of its rename_all)
+    pub variant_renamed: bool,
 }
 
 pub fn gen(ch: &mut Chooser, max_fields: usize) -> Case {
@@ -93,13 +95,17 @@ pub fn gen(ch: &mut Chooser, max_fields: usize) -> Case {
     }
     let lang = *ch.pick("lang", &ALL_LANGS);
     let prefixed = ch.flag("cfg");
-    Case { in_variant, own_rule, enum_rule, fields, style, lang, prefixed, extra_attrs }
+    let variant_renamed = in_variant && ch.flag("variant_renamed");
+    Case { in_variant, own_rule, enum_rule, fields, style, lang, prefixed, extra_attrs, variant_renamed }
 }
 
 pub fn program(c: &Case) -> File {
     if c.in_variant {
         let mut v = Variant::new("Var", VKind::Struct(c.fields.clone()));
         v.rename_all = c.own_rule.map(String::from);
+        if c.variant_renamed {
+            v.rename = Some("var-created".into());
+        }
         v.style = c.style;
         if c.extra_attrs {
             v.extra_serde = vec!["alias = \"OtherName\"".into()];
@@ -288,7 +294,7 @@ pub fn run(args: &[String]) -> i32 {
         accs,
         &stats,
         json!({"containers": ["struct", "struct variant of a tagged enum"], "fields_per_container": max_fields, "idents": IDENTS.len(), "renames": RENAMES.len(),
-               "rename_all": RULES.len(), "placements": ["own container", "enclosing enum only", "both"], "attr_styles": 4, "extra_serde_attributes": [false, true], "languages": 6, "configs": ["defaults", "prefix + other package + Go uppercase_acronyms [ID, URL]"]}),
+               "rename_all": RULES.len(), "placements": ["own container", "enclosing enum only", "both"], "attr_styles": 4, "extra_serde_attributes": [false, true], "variant_carries_its_own_rename": [false, true], "languages": 6, "configs": ["defaults", "prefix + other package + Go uppercase_acronyms [ID, URL]"]}),
     );
     let amb_k = if rep.thorough() { 3 } else { 2 };
     super::common::ambient_family(&mut rep, "ambient_variations", amb_k, |ch| { gen(ch, 2); }, |ch, acc| {
